@@ -225,6 +225,7 @@ mod verif_harness {
     // @functions ValueDeserializer::deserialize_u64 (parse_value!)
     // @timeout 2400
     // @mem 30
+    // @weight 250
     #[kani::proof]
     #[kani::unwind(22)]
     #[kani::stub(std::fmt::format, fmt_stub)]
@@ -562,6 +563,7 @@ mod verif_harness {
     // @obligation a field with no matching parameter is an error (never a default), and a parameter present twice is an error (never first-wins or last-wins)
     // @bounds 1..=2 parameters, shape chosen symbolically among {only a, only b, a twice, a and b}
     // @functions MapDeserializer::next_key_seed, PathDeserializationError::custom
+    // @weight 220
     #[kani::proof]
     #[kani::unwind(4)]
     #[kani::stub(std::fmt::format, fmt_stub)]
@@ -800,6 +802,7 @@ mod verif_harness {
     // @bounds 1 parameter of 48 bytes: k ASCII bytes, one 3-byte character, ASCII padding; k symbolic in 0..=44; 4 target types
     // @functions ValueDeserializer::{deserialize_u8,deserialize_i32,deserialize_bool,deserialize_char} error path of parse_value!
     // @timeout 1500
+    // @weight 470
     #[kani::proof]
     #[kani::unwind(50)]
     #[kani::stub(std::fmt::format, fmt_stub)]
@@ -938,6 +941,7 @@ mod verif_harness {
     // @bounds value = one symbolic decimal digit for the 10 integer types; the literal "0.1" (not representable in f32) and "16777217" for f32/f64; bool/char/string with fixed literals
     // @functions ValueDeserializer::deserialize_{bool,i8,i16,i32,i64,i128,u8,u16,u32,u64,u128,f32,f64,char,str,string} (parse_value! table)
     // @timeout 1800
+    // @weight 220
     #[kani::proof]
     #[kani::unwind(12)]
     #[kani::stub(std::fmt::format, fmt_stub)]
